@@ -124,20 +124,20 @@ theorem find?_key_of_mem {β} : ∀ (all : List (Str × β)) (c : Str) (v : β),
 theorem firstOther_complete (all : List (Str × List Str)) (cur name : Str)
     (h : ∃ p ∈ all, p.1 ≠ cur ∧ name ∈ p.2) : ∃ c, Generate.firstOther all cur name = some c := by
   obtain ⟨p, hp, hne, hn⟩ := h
-  rw [firstOther_eq]
-  cases hf : all.find? (cand cur name) with
-  | some q => exact ⟨q.1, rfl⟩
-  | none =>
-    have := List.find?_eq_none.1 hf p hp
-    simp [cand, hne, hn] at this
+  cases hf : Generate.firstOther all cur name with
+  | some c => exact ⟨c, rfl⟩
+  | none => exact absurd hn (MinByKey.firstOther_eq_none.1 hf p.1 p.2 hp hne)
 
-/-- … and the crate it answers with is another crate that lists the name -/
+/-- … and the crate it answers with is another crate that lists the name … -/
 theorem firstOther_spec (all : List (Str × List Str)) (cur name c : Str)
     (h : Generate.firstOther all cur name = some c) : c ≠ cur ∧ ∃ ns, (c, ns) ∈ all ∧ name ∈ ns := by
-  rw [firstOther_eq, Option.map_eq_some_iff] at h
-  obtain ⟨⟨c', ns⟩, hf, rfl⟩ := h
-  have hp := List.find?_some hf
-  simp only [cand, Bool.and_eq_true, bne_iff_ne, ne_eq] at hp
-  exact ⟨hp.1, ns, List.mem_of_find?_eq_some hf, by simpa using hp.2⟩
+  obtain ⟨⟨ns, hm, hne, hn⟩, _⟩ := MinByKey.firstOther_spec h
+  exact ⟨hne, ns, hm, hn⟩
+
+/-- … the one with the smallest name among them (`min_by_key` on the crate name) -/
+theorem firstOther_smallest (all : List (Str × List Str)) (cur name c : Str)
+    (h : Generate.firstOther all cur name = some c) :
+    ∀ c' ns, (c', ns) ∈ all → c' ≠ cur → name ∈ ns → Str.le c c' = true :=
+  (MinByKey.firstOther_spec h).2
 
 end TsV.C14I
